@@ -77,7 +77,8 @@ def C39(ctx):
         mc_states += r.distinct
     # G: seeded histories from random initial configurations, every step an instance of the specification's actions
     k = 8 if q else 10
-    nsys = 576          # GenAccount.NSys: the systematic one-call histories (inputs of the decision x method x badge status)
+    nsys = 720          # GenAccount.NSys: 576 systematic one-call histories (inputs of the decision x method x badge status)
+    #                     + 144 two-call histories (empty bucket of the resource in a batch, then a follow-up deposit)
     walks = nsys + (200 if q else 4000)
     out_file = ctx.wpath("gen.out")
     g = tlc("Account", "GenAccount", workers=4, consts={"Walks": walks, "K": k, "Seed": ctx.seed % 65521}, timeout=6000,
@@ -90,8 +91,9 @@ def C39(ctx):
     if len(hists) != walks:
         raise ToolError("GenAccount produced %d of %d histories" % (len(hists), walks))
     sysh = [h for h in hists if len(h) == 2 and h[1]["op"] in TRY_OPS and len(h[1]["bs"]) == 1]
-    if len({(h[1]["op"], json.dumps(h[1]["cell"]["inputs"]), h[1]["cell"]["badge"]) for h in sysh}) < nsys:
-        raise ToolError("the systematic family of GenAccount is incomplete")
+    if len({(h[1]["op"], json.dumps(h[1]["cell"]["inputs"]), h[1]["cell"]["badge"]) for h in sysh}) < 576 \
+            or sum(1 for h in hists if len(h) == 3 and h[1]["bs"] and h[1]["bs"][0]["a"] == 0) != 144:
+        raise ToolError("the systematic families of GenAccount are incomplete")
     steps = [e for h in hists for e in h[1:]]
     # non-vacuity: every row of the statement's case analysis for every guarded method, the batch phenomena, every class
     cells = collections.Counter((e["op"], e["cell"]["all"], e["cell"]["badge"]) for e in steps if e["op"] in TRY_OPS)
@@ -150,7 +152,9 @@ def C39(ctx):
                     "depositor sets x vault sets) x 6 deposit methods x every bucket list of %s x every caller (named badge or none x "
                     "proofs presented x owner signature) and every configuration call, with the statement as action properties; "
                     "GenAccount: systematically the full product (XRD or not x preference x default rule x vault exists) x 4 guarded "
-                    "methods x badge none / unlisted / unproven / proven as 576 one-call histories, and %d seeded histories of %d "
+                    "methods x badge none / unlisted / unproven / proven as 576 one-call histories; the same 36 input combinations x the 2 "
+                    "batch methods x an empty bucket of the resource (alone / next to a non-empty bucket of another resource) followed "
+                    "by a guarded deposit of the resource (144 two-call histories); and %d seeded histories of %d "
                     "operations from random initial configurations (deposit methods with "
                     "batches of 0..3 buckets over XRD / a fungible / a non-fungible resource with amounts 0..2, 4 badges: resource, "
                     "non-fungible id, signature, the id's resource; configuration changes in between), each operation one real "
